@@ -1,5 +1,6 @@
 """Implementation side of the dimension-link histories (C05 dimension clauses, C12 refusals)."""
 import json
+import zlib
 import os
 import sys
 
@@ -86,11 +87,12 @@ def main():
         obs = []
         # two Python objects of every participant: the calls alternate between them, the observation is made through the
         # objects that did NOT make the call, and the reads through both must agree
+        par = zlib.crc32(json.dumps(c, sort_keys=True).encode())
         H, T, R, S = [h, b.data_arrays["host"]], [t, b.data_arrays["target"]], None, None
         R, S = [r, H[1].dimensions[0]], [s, H[1].dimensions[1]]
         for nop, op in enumerate(c["ops"]):
             code = 0
-            w = (nop + k) % 2
+            w = (nop + par) % 2
             h, t, r, s = H[w], T[w], R[w], S[w]
             try:
                 o = op[0]
